@@ -189,6 +189,7 @@ def gen_case(seed, tier):
         "timeout": rng.choice([0.5, 1.0, 2.0]),
         "lifetime": rng.choice([1.0, 3.0, 5.0, 5.0]),
         "cache": rng.choice([None, "cache", "lru", "lru"]),
+        "lru_size": rng.choice([1, 2, 2, 50]),
     }
     scripts = [[_gen_outcome(rng) for _ in range(rng.choice([1, 3, 6, 12]))] for _ in range(nserv)]
     # what a server does when its script is exhausted
@@ -426,7 +427,7 @@ def _make_resolver(case, world, is_async):
     if cfg["cache"] == "cache":
         r.cache = dns.resolver.Cache()
     elif cfg["cache"] == "lru":
-        r.cache = dns.resolver.LRUCache(50)
+        r.cache = dns.resolver.LRUCache(cfg.get("lru_size", 50))
     return r
 
 
@@ -569,6 +570,8 @@ def model_run(case, res_states=None):
     now = 50000.0
     pos = [0] * cfg["nserv"]
     cache = {} if cfg["cache"] else None
+    lru_order = []
+    lru_size = cfg.get("lru_size", 50)
     out = []
     probes = []
     states = set()
@@ -605,8 +608,24 @@ def model_run(case, res_states=None):
             if v is None or v["exp"] <= now:
                 if v is not None and cfg["cache"] == "lru":
                     del cache[key]
+                    lru_order.remove(key)
                 return None
+            if cfg["cache"] == "lru":
+                lru_order.remove(key)
+                lru_order.insert(0, key)  # most recently used first
             return v
+
+        def cache_put(key, v):
+            if cfg["cache"] == "lru":
+                if key in cache:
+                    lru_order.remove(key)
+                    del cache[key]
+                while len(lru_order) >= lru_size:
+                    old = lru_order.pop()
+                    del cache[old]
+                    probes.append("lru_eviction_in_resolver_cache")
+                lru_order.insert(0, key)
+            cache[key] = v
 
         try:
             for ci, cand in enumerate(cands):
@@ -687,7 +706,7 @@ def model_run(case, res_states=None):
                     if k == "cname" and rdtype != "CNAME" and not o["final"] and o.get("nx") and o["len"] < MAX_CHAIN:
                         kind, ttl = _m_min_ttl(o, rdtype)
                         if cache is not None:
-                            cache[(cand.lower(), "ANY", cls)] = {"qname": cand, "exp": now + ttl, "rrset": False, "nx": True, "o": o, "ns": cur, "rdtype": "ANY", "cls": cls}
+                            cache_put((cand.lower(), "ANY", cls), {"qname": cand, "exp": now + ttl, "rrset": False, "nx": True, "o": o, "ns": cur, "rdtype": "ANY", "cls": cls})
                         nx_count += 1
                         probes.append("nxdomain_at_end_of_cname_chain")
                         done = True
@@ -707,7 +726,7 @@ def model_run(case, res_states=None):
                             continue
                         ans = {"qname": cand, "exp": now + ttl, "rrset": kind == "answer", "nx": False, "o": o, "ns": cur, "rdtype": rdtype, "cls": cls}
                         if cache is not None:
-                            cache[(cand.lower(), rdtype, cls)] = ans
+                            cache_put((cand.lower(), rdtype, cls), ans)
                         if kind != "answer" and res["raise_on_no_answer"]:
                             probes.append("no_answer")
                             raise _MExc("NoAnswer")
@@ -717,7 +736,7 @@ def model_run(case, res_states=None):
                     if k == "nxdomain":
                         kind, ttl = _m_min_ttl(o, rdtype)
                         if cache is not None:
-                            cache[(cand.lower(), "ANY", cls)] = {"qname": cand, "exp": now + ttl, "rrset": False, "nx": True, "o": o, "ns": cur, "rdtype": "ANY", "cls": cls}
+                            cache_put((cand.lower(), "ANY", cls), {"qname": cand, "exp": now + ttl, "rrset": False, "nx": True, "o": o, "ns": cur, "rdtype": "ANY", "cls": cls})
                         nx_count += 1
                         done = True
                         continue
